@@ -42,13 +42,21 @@ func perCallThreads() []string {
 
 func resScenario(p resParams) func() {
 	return func() {
-		w := world.New(world.Opts{N: 2, Window: 4, SendBuffer: p.buf})
+		win := 4
+		if p.ending == "send-fails" {
+			win = 1 // a non-reading server blocks the second unread write
+		}
+		w := world.New(world.Opts{N: 2, Window: win, SendBuffer: p.buf})
+		blockers := map[int]bool{}
 		if w.Cfg == nil {
 			return
 		}
 		stream := world.IsStream(p.kind)
 		w.Handle = func(h *world.HCtx) world.Reply {
 			g := fmt.Sprintf("n%dt%d", h.Node, h.Tok)
+			if blockers[h.Tok] {
+				world.Block() // occupies the handler slot without releasing: the server stops reading
+			}
 			switch p.ending {
 			case "early-quorum", "cancel-then-answer":
 				if h.Node == 2 || p.ending == "cancel-then-answer" {
@@ -78,6 +86,17 @@ func resScenario(p resParams) func() {
 		key := classOf(p.kind) + "/" + p.ending
 		var base []int
 		for round := 1; round <= p.rounds; round++ {
+			if p.ending == "send-fails" {
+				// node 2: one message in the (never releasing) handler, one filling the window;
+				// the write of the call under test then blocks until the stream dies
+				for i := 0; i < 2; i++ {
+					b := w.NewCall("Unicast")
+					b.Node, b.NoSendWaiting = 2, true
+					blockers[b.Tok] = true
+					w.Invoke(b)
+					mc.Quiesce()
+				}
+			}
 			c := w.NewCall(p.kind)
 			c.NoSendWaiting = p.nsw
 			single := p.kind == "GRPCCall" || strings.HasPrefix(p.kind, "Unicast")
@@ -110,7 +129,7 @@ func resScenario(p resParams) func() {
 				w.Open(fmt.Sprintf("n2t%d", c.Tok))
 			case "deadline-silent":
 				c.Cancel(context.DeadlineExceeded)
-			case "crash":
+			case "crash", "send-fails":
 				w.FW.Crash(world.Addr(2))
 				mc.Quiesce()
 				w.FW.Restart(world.Addr(2))
@@ -122,7 +141,7 @@ func resScenario(p resParams) func() {
 				}
 				mc.Quiesce()
 			}
-			if stream && (p.ending == "exhaustion" || p.ending == "handler-error" || p.ending == "crash") {
+			if stream && (p.ending == "exhaustion" || p.ending == "handler-error" || p.ending == "crash" || p.ending == "send-fails") {
 				// a stream call only ends through done, failure of all nodes or its context
 				c.Cancel(context.Canceled)
 				mc.Quiesce()
@@ -164,7 +183,7 @@ func resInstances(tier string) []Instance {
 	if thorough(tier) {
 		kinds = append(kinds, k{"QuorumCallCombo", false}, k{"QuorumCallAsyncPerNodeArg", false}, k{"CorrectableStreamCombo", false}, k{"MulticastPerNodeArg", false})
 	}
-	endings := []string{"early-quorum", "exhaustion", "cancel-then-answer", "deadline-silent", "crash", "handler-error", "stream-end"}
+	endings := []string{"early-quorum", "exhaustion", "cancel-then-answer", "deadline-silent", "crash", "handler-error", "stream-end", "send-fails"}
 	for _, kd := range kinds {
 		for _, e := range endings {
 			if e == "stream-end" && !world.IsStream(kd.kind) {
@@ -191,7 +210,7 @@ func resInstances(tier string) []Instance {
 
 func init() {
 	register(&Check{ID: "C18",
-		Rule: "9 call variants (13 thorough) x way of ending {quorum before all replies then the straggler answers, exhaustion, cancel then the nodes answer, deadline with a node that stays silent, node crash + restart, handler error, stream end} x send buffer {0,1}, each call repeated twice on the same manager; after each round (back-off timers fired) the oracle reads the response-router count of every node through an accessor and the live per-call goroutines from the scheduler: zero once every targeted node has answered or its connection failed (one router per round only for a node that never answers), no growth between rounds; all schedules within the deviation bound; an outcome is the instance",
+		Rule: "9 call variants (13 thorough) x way of ending {quorum before all replies then the straggler answers, exhaustion, cancel then the nodes answer, deadline with a node that stays silent, node crash + restart, handler error, stream end, the write itself failing (stream dies while the request is blocked in SendMsg on a full window)} x send buffer {0,1}, each call repeated twice on the same manager; after each round (back-off timers fired) the oracle reads the response-router count of every node through an accessor and the live per-call goroutines from the scheduler: zero once every targeted node has answered or its connection failed (one router per round only for a node that never answers), no growth between rounds; all schedules within the deviation bound; an outcome is the instance",
 		Gen:  resInstances,
 		Assumptions: []string{"router counts are read through an accessor added by overlay; goroutines are identified by their spawn site"},
 	})
